@@ -1934,3 +1934,8 @@ package engine
 //@   property C16
 //@   nosafety
 //@   at-call Unify requires[each-alternative-offers-its-own-split-to-the-caller-s-pattern] a0 == vm && a1 == pattern && a3 == k && a4 == env
+
+//@ func Bool
+//@   trusted
+//@   modifies nothing
+//@   ensures result != nil
